@@ -245,7 +245,22 @@ def grep_forbidden():
     return hits
 
 
-def prove(chk, leanchecker=False):
+def preflight_forms(chk, arch):
+    """Evaluate the form table of an ISA property with the compiled Model before asking the kernel
+    to prove it: a table that no longer holds is reported in well under a second with its first
+    failing forms, instead of by a failing kernel evaluation (which can take an hour and tens of
+    gigabytes because of the size of the failing term).  Returns None when the table holds."""
+    sub = {"z80": "C01Forms", "sm83": "C02Forms", "6502": "C03Forms"}[arch]
+    n = len([f for f in os.listdir(f"{LEAN}/Az65/Thm/{sub}") if re.fullmatch(r"P\d+\.lean", f)])
+    out = run_model([f"f\tforms\t{arch}\t{n}"]).get("f", ["?"])
+    cells = out[0].split(";") if out else []
+    bad = [c for c in cells if "=0" in c or "=" not in c]
+    if len(cells) != n or bad:
+        return "form table fails (compiled evaluation) at: " + "; ".join(bad[:6])[:900] if bad else f"pre-flight gave no answer: {out[:1]}"
+    return None
+
+
+def prove(chk, leanchecker=False, skip=None):
     """lake build the property's theorem module, audit axioms of every registered theorem."""
     reg = json.load(open(f"{VERIF}/theorems.json")).get(chk.prop)
     if not reg:
@@ -253,6 +268,13 @@ def prove(chk, leanchecker=False):
         return False
     module = reg["module"]
     mods = [module] + reg.get("extra_modules", [])
+    if skip:
+        chk.oblige(f"lake build {' '.join(mods)}", False, "not attempted: " + skip)
+        hits = grep_forbidden()
+        chk.oblige("no sorry/admit/axiom/native_decide/bv_decide/implemented_by/unsafe/maxHeartbeats 0 in lean/Az65", not hits, "; ".join(hits[:5]))
+        for t in reg["theorems"]:
+            chk.oblige(f"theorem {t}", False, "not attempted: the form table it rests on does not hold for the regenerated tree")
+        return False
     rc, out, err = sh(["lake", "build"] + mods, cwd=LEAN, timeout=3600)
     ok = rc == 0
     chk.oblige(f"lake build {' '.join(mods)}", ok, (out + err)[-2500:] if not ok else "")
@@ -394,9 +416,14 @@ def unhexs(h):
     return bytes.fromhex(h).decode("utf-8", "replace")
 
 
-def std_setup(chk, need_bin=False):
+def std_setup(chk, need_bin=False, forms_arch=None):
     regen(chk)
-    ok = prove(chk, leanchecker=(chk.tier == "thorough"))
+    skip = None
+    if forms_arch:
+        if build_model(chk):
+            skip = preflight_forms(chk, forms_arch)
+            chk.oblige("pre-flight: form table holds under compiled evaluation (not a proof; decides whether the kernel proof is attempted)", skip is None, skip or "")
+    ok = prove(chk, leanchecker=(chk.tier == "thorough"), skip=skip)
     build_model(chk)
     build_harness(chk)
     if need_bin:
